@@ -141,11 +141,11 @@ func hooksField(h *api.Hooks, kind string) *[]*api.Hook {
 	panic(kind)
 }
 
-// mount: the value is carried by the second option; the source changes only with every second
+// mount: the value is carried by the last option, after a propagation option (the order the CRI uses); the source changes only with every second
 // plugin value (10 -> v0, 20 and 30 -> v20, ...), so that some pairs of writers differ in nothing
 // but the contents of their option lists (same destination, type, source and number of options)
 func mount(dest string, v int) *api.Mount {
-	return &api.Mount{Destination: dest, Source: "/src/" + sv(v-v%20), Type: "bind", Options: []string{"rbind", "o" + sv(v)}}
+	return &api.Mount{Destination: dest, Source: "/src/" + sv(v-v%20), Type: "bind", Options: []string{"rbind", "rprivate", "o" + sv(v)}}
 }
 
 func mountVal(source string, options []string) int {
